@@ -202,7 +202,7 @@ func c14B2V(c *C14Shape, r *core.Rec) {
 				tol = 1e-12 * math.Abs(want)
 			} else {
 				want = e0 + f*(e1-e0)
-				tol = 8 * ref.Eps * (math.Abs(e0) + math.Abs(e1))
+				tol = 8 * ref.Eps * (math.Abs(c.Min) + math.Abs(c.Max))
 			}
 			if !r.Err("BinToValue-interp", math.Abs(got-want), tol) {
 				r.Fail("BinToValue-interp", "shape %+v: BinToValue(%v)=%v, interpolation between edges %v and %v gives %v", *c, float64(i)+f, got, e0, e1, want)
